@@ -465,3 +465,592 @@ Proof.
   - exists (fun _ => [0]), 0%nat, 0. vm_compute. left. reflexivity.
   - exists (fun _ => []), 1%nat, 0. vm_compute. intros [].
 Qed.
+
+(* ================================================================== 2. grids: offsets *)
+Definition norm_inf (d : coord) : Z := fold_right (fun x acc => Z.max (Z.abs x) acc) 0 d.
+Definition norm_1 (d : coord) : Z := fold_right (fun x acc => Z.abs x + acc) 0 d.
+
+Lemma nodup_app {A} (a b : list A) :
+  NoDup a -> NoDup b -> (forall x, In x a -> ~ In x b) -> NoDup (a ++ b).
+Proof.
+  induction a as [|x a IH]; simpl; intros Ha Hb Hd; [exact Hb|].
+  inversion Ha; subst. constructor.
+  - rewrite in_app_iff. intros [H|H]; [contradiction|]. apply (Hd x); auto.
+  - apply IH; auto.
+Qed.
+
+Lemma nodup_flat_map {A B} (f : A -> list B) l :
+  NoDup l -> (forall x, In x l -> NoDup (f x)) ->
+  (forall x y z, In x l -> In y l -> In z (f x) -> In z (f y) -> x = y) ->
+  NoDup (flat_map f l).
+Proof.
+  induction l as [|a l IH]; simpl; intros Hnd Hf Hdis; [constructor|].
+  inversion Hnd; subst. apply nodup_app.
+  - apply Hf. left. reflexivity.
+  - apply IH; auto. intros x y z Hx Hy. apply Hdis; auto.
+  - intros z Hz Hz'. apply in_flat_map in Hz'. destruct Hz' as [y [Hy Hzy]].
+    assert (a = y) by (apply (Hdis a y z); auto). subst. contradiction.
+Qed.
+
+Lemma nodup_map_cons (x : Z) (l : list coord) : NoDup l -> NoDup (map (cons x) l).
+Proof.
+  induction l as [|a l IH]; simpl; intros H; [constructor|]. inversion H; subst. constructor; [|auto].
+  rewrite in_map_iff. intros [b [Hb Hin]]. inversion Hb; subst. contradiction.
+Qed.
+
+Lemma product_In l : forall d, In d (product_ l) <-> Forall2 (fun x xs => In x xs) d l.
+Proof.
+  induction l as [|h t IH]; intros d; simpl.
+  - split; [intros [<-|[]]; constructor|]. intros H. inversion H. left. reflexivity.
+  - rewrite in_flat_map. split.
+    + intros [x [Hx Hd]]. apply in_map_iff in Hd. destruct Hd as [t' [<- Ht]].
+      constructor; [exact Hx|]. apply IH. exact Ht.
+    + intros H. inversion H as [|x xs d' l' Hx Hrest]; subst. exists x. split; [exact Hx|].
+      apply in_map_iff. exists d'. split; [reflexivity|]. apply IH. exact Hrest.
+Qed.
+
+Lemma product_NoDup l : Forall (fun ax => NoDup ax) l -> NoDup (product_ l).
+Proof.
+  induction l as [|h t IH]; simpl; intros H.
+  - constructor; [intros []|constructor].
+  - inversion H; subst. apply nodup_flat_map; auto.
+    + intros x _. apply nodup_map_cons. auto.
+    + intros x y z _ _ Hx Hy. apply in_map_iff in Hx. apply in_map_iff in Hy.
+      destruct Hx as [a [<- _]]. destruct Hy as [b [Hb _]]. inversion Hb. reflexivity.
+Qed.
+
+Lemma Forall2_repeat (s : list Z) n d :
+  Forall2 (fun x xs => In x xs) d (repeat s n) <-> length d = n /\ Forall (fun x => In x s) d.
+Proof.
+  revert d. induction n as [|n IH]; intros d; simpl.
+  - split.
+    + intros H. inversion H. split; [reflexivity|constructor].
+    + intros [H _]. destruct d; [constructor|discriminate].
+  - split.
+    + intros H. inversion H as [|x xs d' l' Hx Hrest]; subst. apply IH in Hrest. destruct Hrest as [H1 H2].
+      simpl. split; [congruence|]. constructor; assumption.
+    + intros [H1 H2]. destruct d as [|x d']; [discriminate|]. inversion H2; subst.
+      constructor; [assumption|]. apply IH. split; [simpl in H1; congruence|assumption].
+Qed.
+
+Lemma remove_first_In x l y : NoDup l -> (In y (remove_first x l) <-> In y l /\ y <> x).
+Proof.
+  induction l as [|a l IH]; simpl; intros Hnd; [tauto|].
+  inversion Hnd as [|a' l' Hnotin Hnd']; subst.
+  destruct (zl_eqb x a) eqn:E.
+  - apply zl_eqb_eq in E. subst a. split.
+    + intros H. split; [right; exact H|]. intros ->. contradiction.
+    + intros [[H|H] Hne]; [congruence|exact H].
+  - assert (x <> a) as Hxa by (intros ->; rewrite (proj2 (zl_eqb_eq a a) eq_refl) in E; discriminate).
+    simpl. rewrite IH by assumption. split.
+    + intros [H|[Hy1 Hy2]]; [subst; split; [left; reflexivity|congruence]|tauto].
+    + intros [[H|H] Hne]; [left; exact H|right; tauto].
+Qed.
+
+Lemma remove_first_NoDup x l : NoDup l -> NoDup (remove_first x l).
+Proof.
+  induction l as [|a l IH]; simpl; intros Hnd; [constructor|].
+  inversion Hnd as [|a' l' Hnotin Hnd']; subst.
+  destruct (zl_eqb x a); [assumption|]. constructor; [|auto].
+  rewrite remove_first_In by assumption. tauto.
+Qed.
+
+Lemma in_unit3 x : In x [-1; 0; 1] <-> -1 <= x <= 1.
+Proof. simpl. lia. Qed.
+
+Lemma unit3_NoDup : NoDup [-1; 0; 1].
+Proof. repeat constructor; simpl; intuition discriminate. Qed.
+
+Lemma moore_offsets_In n d :
+  In d (moore_offsets n) <-> length d = n /\ Forall (fun x => -1 <= x <= 1) d /\ d <> repeat 0 n.
+Proof.
+  unfold moore_offsets. rewrite remove_first_In.
+  - rewrite product_In, Forall2_repeat. rewrite Forall_forall.
+    setoid_rewrite in_unit3. rewrite <- Forall_forall. tauto.
+  - apply product_NoDup. clear. induction n; simpl; constructor; [exact unit3_NoDup|assumption].
+Qed.
+
+Lemma moore_offsets_NoDup n : NoDup (moore_offsets n).
+Proof.
+  unfold moore_offsets. apply remove_first_NoDup. apply product_NoDup.
+  induction n; simpl; constructor; [exact unit3_NoDup|assumption].
+Qed.
+
+Lemma norm_inf_nonneg d : 0 <= norm_inf d.
+Proof. induction d; simpl; lia. Qed.
+
+Lemma norm_inf_le1 d : norm_inf d <= 1 <-> Forall (fun x => -1 <= x <= 1) d.
+Proof.
+  induction d as [|x d IH]; simpl.
+  - split; [constructor|lia].
+  - pose proof (norm_inf_nonneg d). split.
+    + intros Hm. constructor; [lia|]. apply IH. lia.
+    + intros Hf. inversion Hf; subst. apply IH in H3. lia.
+Qed.
+
+Lemma norm_inf_zero d : norm_inf d = 0 <-> d = repeat 0 (length d).
+Proof.
+  induction d as [|x d IH]; simpl; [tauto|].
+  pose proof (norm_inf_nonneg d). split.
+  - intros Hm. assert (x = 0) by lia. assert (norm_inf d = 0) as Hd by lia.
+    apply IH in Hd. congruence.
+  - intros He. injection He as Hx Hd. apply IH in Hd. rewrite Hd, Hx. lia.
+Qed.
+
+(* the n-D Moore construction = the offsets of Chebyshev norm 1 *)
+Lemma moore_offsets_spec n d : In d (moore_offsets n) <-> length d = n /\ norm_inf d = 1.
+Proof.
+  rewrite moore_offsets_In. pose proof (norm_inf_nonneg d) as Hnn.
+  pose proof (norm_inf_le1 d) as Hle. pose proof (norm_inf_zero d) as Hz. split.
+  - intros [Hl [Hf Hne]]. split; [exact Hl|]. apply Hle in Hf.
+    assert (norm_inf d <> 0) by (intros E; apply Hz in E; rewrite Hl in E; contradiction). lia.
+  - intros [Hl Hn]. split; [exact Hl|]. split; [apply Hle; lia|].
+    intros E. rewrite <- Hl in E. apply Hz in E. lia.
+Qed.
+
+(* --- von Neumann --- *)
+Lemma set_nth_length i v l : length (set_nth i v l) = length l.
+Proof. revert i. induction l as [|x l IH]; intros [|i]; simpl; auto. Qed.
+
+Lemma nth_set_nth_same i v l : (i < length l)%nat -> nth i (set_nth i v l) 0 = v.
+Proof. revert i. induction l as [|x l IH]; intros [|i]; simpl; intros H; try lia; auto. apply IH. lia. Qed.
+
+Lemma nth_set_nth_other i j v l : i <> j -> nth i (set_nth j v l) 0 = nth i l 0.
+Proof.
+  revert i j. induction l as [|x l IH]; intros [|i] [|j]; simpl; intros H; try congruence; auto.
+Qed.
+
+Lemma nth_zeros i n : nth i (repeat 0 n) 0 = 0.
+Proof. revert i. induction n; intros [|i]; simpl; auto. Qed.
+
+Lemma norm_1_nonneg d : 0 <= norm_1 d.
+Proof. induction d; simpl; lia. Qed.
+
+Lemma norm_1_zero d : norm_1 d = 0 <-> d = repeat 0 (length d).
+Proof.
+  induction d as [|x d IH]; simpl; [tauto|].
+  pose proof (norm_1_nonneg d). split.
+  - intros Hm. assert (x = 0) by lia. assert (norm_1 d = 0) as Hd by lia.
+    apply IH in Hd. congruence.
+  - intros He. injection He as Hx Hd. apply IH in Hd. rewrite Hd, Hx. lia.
+Qed.
+
+Lemma norm_1_zeros n : norm_1 (repeat 0 n) = 0.
+Proof. induction n; simpl; lia. Qed.
+
+Lemma norm_1_unit i v n : (i < n)%nat -> norm_1 (set_nth i v (repeat 0 n)) = Z.abs v.
+Proof.
+  revert i. induction n as [|n IH]; intros [|i] H; simpl; try lia.
+  - rewrite norm_1_zeros. lia.
+  - rewrite IH by lia. lia.
+Qed.
+
+Lemma norm_1_one_unit d :
+  norm_1 d = 1 -> exists i v, (i < length d)%nat /\ (v = -1 \/ v = 1) /\ d = set_nth i v (repeat 0 (length d)).
+Proof.
+  induction d as [|x d IH]; simpl; intros H; [lia|].
+  pose proof (norm_1_nonneg d) as Hnn.
+  destruct (Z.eq_dec x 0) as [->|Hx].
+  - destruct IH as [i [v [Hi [Hv Hd]]]]; [lia|].
+    exists (S i), v. split; [lia|]. split; [exact Hv|]. simpl. congruence.
+  - assert (norm_1 d = 0) as Hd by lia. apply norm_1_zero in Hd.
+    exists 0%nat, x. split; [lia|]. split; [lia|]. simpl. congruence.
+Qed.
+
+Lemma vn_offsets_In n d :
+  In d (vn_offsets n) <->
+  exists i v, (i < n)%nat /\ (v = -1 \/ v = 1) /\ d = set_nth i v (repeat 0 n).
+Proof.
+  unfold vn_offsets. rewrite in_flat_map. split.
+  - intros [i [Hi Hd]]. apply in_seq in Hi. simpl in Hd.
+    destruct Hd as [<-|[<-|[]]]; [exists i, (-1)|exists i, 1]; (split; [lia|]); auto.
+  - intros [i [v [Hi [Hv ->]]]]. exists i. split; [apply in_seq; lia|]. simpl.
+    destruct Hv as [-> | ->]; auto.
+Qed.
+
+(* the n-D von Neumann construction = the offsets of Manhattan norm 1 *)
+Lemma vn_offsets_spec n d : In d (vn_offsets n) <-> length d = n /\ norm_1 d = 1.
+Proof.
+  rewrite vn_offsets_In. split.
+  - intros [i [v [Hi [Hv ->]]]]. rewrite set_nth_length, repeat_length. split; [reflexivity|].
+    rewrite norm_1_unit by exact Hi. lia.
+  - intros [Hl Hn]. apply norm_1_one_unit in Hn. rewrite Hl in Hn. exact Hn.
+Qed.
+
+Lemma vn_offsets_NoDup n : NoDup (vn_offsets n).
+Proof.
+  unfold vn_offsets. apply nodup_flat_map.
+  - apply seq_NoDup.
+  - intros i Hi. apply in_seq in Hi. simpl. constructor; [|constructor; [intros []|constructor]].
+    simpl. intros [H|[]].
+    assert (nth i (set_nth i 1 (repeat 0 n)) 0 = nth i (set_nth i (-1) (repeat 0 n)) 0) as E by (rewrite H; reflexivity).
+    rewrite !nth_set_nth_same in E by (rewrite repeat_length; lia). discriminate.
+  - intros i j z Hi Hj Hzi Hzj. apply in_seq in Hi. apply in_seq in Hj.
+    destruct (Nat.eq_dec i j) as [E|E]; [exact E|exfalso].
+    assert (nth i z 0 <> 0) as H1.
+    { simpl in Hzi. destruct Hzi as [<-|[<-|[]]]; rewrite nth_set_nth_same by (rewrite repeat_length; lia); discriminate. }
+    apply H1. simpl in Hzj. destruct Hzj as [<-|[<-|[]]]; rewrite nth_set_nth_other by exact E; apply nth_zeros.
+Qed.
+
+(* closed under negation *)
+Lemma norm_inf_opp d : norm_inf (map Z.opp d) = norm_inf d.
+Proof. induction d; simpl; [reflexivity|]. rewrite IHd. lia. Qed.
+Lemma norm_1_opp d : norm_1 (map Z.opp d) = norm_1 d.
+Proof. induction d; simpl; [reflexivity|]. rewrite IHd. lia. Qed.
+
+Lemma moore_offsets_opp n d : In d (moore_offsets n) -> In (map Z.opp d) (moore_offsets n).
+Proof. rewrite !moore_offsets_spec, map_length, norm_inf_opp. tauto. Qed.
+Lemma vn_offsets_opp n d : In d (vn_offsets n) -> In (map Z.opp d) (vn_offsets n).
+Proof. rewrite !vn_offsets_spec, map_length, norm_1_opp. tauto. Qed.
+
+(* ================================================================== 2b. grids: connecting *)
+Definition wrap (dims : list Z) (c : coord) : coord := zip_with Z.modulo c dims.
+Definition vadd (c d : coord) : coord := zip_with Z.add c d.
+
+(* every coordinate inside its axis *)
+Lemma in_bounds_spec dims c : length c = length dims ->
+  (in_bounds dims c = true <-> Forall2 (fun x n => 0 <= x < n) c dims).
+Proof.
+  revert dims. induction c as [|x c IH]; intros [|n dims] Hl; simpl in *; try discriminate.
+  - split; [constructor|reflexivity].
+  - unfold in_bounds in *. simpl. rewrite !andb_true_iff, IH by congruence. split.
+    + intros [[H1 H2] H3]. constructor; [lia|exact H3].
+    + intros H. inversion H; subst. split; [lia|assumption].
+Qed.
+
+(* connection under offset d: to c+d, wrapped on a torus, absent beyond the edge *)
+Lemma connect_nd_spec torus dims c d c' :
+  connect_nd torus dims c d = Some c' <->
+  c' = (if torus then wrap dims (vadd c d) else vadd c d) /\ in_bounds dims c' = true.
+Proof.
+  unfold connect_nd, wrap, vadd. destruct torus.
+  - destruct (in_bounds dims (zip_with Z.modulo (zip_with Z.add c d) dims)) eqn:E.
+    + split; [intros [= <-]; auto|intros [-> _]; reflexivity].
+    + split; [discriminate|intros [-> H]; congruence].
+  - destruct (in_bounds dims (zip_with Z.add c d)) eqn:E.
+    + split; [intros [= <-]; auto|intros [-> _]; reflexivity].
+    + split; [discriminate|intros [-> H]; congruence].
+Qed.
+
+(* the 2-D helper is the n-D one on two axes *)
+Lemma connect_2d_eq_nd torus h w i j di dj :
+  connect_2d torus [h; w] [i; j] (di, dj) = connect_nd torus [h; w] [i; j] [di; dj].
+Proof.
+  unfold connect_2d, connect_nd, in_bounds. destruct torus; simpl;
+    repeat match goal with |- context [?a <=? ?b] => destruct (a <=? b) end;
+    repeat match goal with |- context [?a <? ?b] => destruct (a <? b) end; reflexivity.
+Qed.
+
+Lemma zip_length {A B C} (f : A -> B -> C) a b : length a = length b -> length (zip_with f a b) = length a.
+Proof. revert b. induction a; intros [|y b]; simpl; intros H; try discriminate; auto. Qed.
+
+Lemma back_torus c : forall d dims, length c = length d -> length c = length dims ->
+  in_bounds dims c = true ->
+  wrap dims (vadd (wrap dims (vadd c d)) (map Z.opp d)) = c.
+Proof.
+  unfold wrap, vadd, in_bounds.
+  induction c as [|x c IH]; intros [|y d] [|n dims] H1 H2 Hb; simpl in *; try discriminate; [reflexivity|].
+  rewrite !andb_true_iff in Hb. destruct Hb as [[Hb1 Hb2] Hb3]. f_equal.
+  - rewrite Z.add_mod_idemp_l by lia. replace (x + y + - y) with x by lia. apply Z.mod_small. lia.
+  - apply IH; auto.
+Qed.
+
+Lemma back_plain c : forall d, length c = length d -> vadd (vadd c d) (map Z.opp d) = c.
+Proof.
+  unfold vadd. induction c as [|x c IH]; intros [|y d] H; simpl in *; try discriminate; [reflexivity|].
+  f_equal; [lia|auto].
+Qed.
+
+(* connection is symmetric: the target is connected back under the opposite offset, for every
+   dimension vector (sizes 1 and 2 included), torus or not *)
+Lemma connect_nd_symmetric torus dims c d c' :
+  length c = length dims -> length d = length dims -> in_bounds dims c = true ->
+  connect_nd torus dims c d = Some c' ->
+  connect_nd torus dims c' (map Z.opp d) = Some c.
+Proof.
+  intros Hc Hd Hb H. apply connect_nd_spec in H. destruct H as [-> Hb']. apply connect_nd_spec.
+  destruct torus.
+  - split; [|exact Hb]. symmetry. apply back_torus; congruence.
+  - split; [|exact Hb]. symmetry. apply back_plain. congruence.
+Qed.
+
+(* targets of connections are cells of the grid *)
+Lemma connect_nd_in_bounds torus dims c d c' : connect_nd torus dims c d = Some c' -> in_bounds dims c' = true.
+Proof. intros H. apply connect_nd_spec in H. tauto. Qed.
+
+Lemma conns_nd_In torus dims offsets c d c' :
+  In (d, c') (conns_nd torus dims offsets c) <-> In d offsets /\ connect_nd torus dims c d = Some c'.
+Proof.
+  unfold conns_nd. rewrite in_flat_map. split.
+  - intros [d0 [Hd0 Hin]]. destruct (connect_nd torus dims c d0) as [n|] eqn:E; [|destruct Hin].
+    destruct Hin as [[= <- <-]|[]]. auto.
+  - intros [Hd Hc]. exists d. split; [exact Hd|]. rewrite Hc. left. reflexivity.
+Qed.
+
+(* no key is written twice: the keys of one cell's connections are distinct *)
+Lemma conns_nd_keys_NoDup torus dims offsets c :
+  NoDup offsets -> NoDup (map fst (conns_nd torus dims offsets c)).
+Proof.
+  unfold conns_nd. induction offsets as [|d t IH]; simpl; intros H; [constructor|].
+  inversion H as [|d' t' Hnotin Hnd]; subst. rewrite map_app. apply nodup_app.
+  - destruct (connect_nd torus dims c d); simpl; [constructor; [intros []|constructor]|constructor].
+  - apply IH. exact Hnd.
+  - intros k Hk Hk'. destruct (connect_nd torus dims c d); simpl in Hk; [|destruct Hk].
+    destruct Hk as [<-|[]]. apply in_map_iff in Hk'. destruct Hk' as [[k' v] [Hk1 Hk2]]. simpl in Hk1. subst k'.
+    apply in_flat_map in Hk2. destruct Hk2 as [d0 [Hd0 Hin]].
+    destruct (connect_nd torus dims c d0); [|destruct Hin]. destruct Hin as [[= <- <-]|[]]. contradiction.
+Qed.
+
+(* --- finite tables checked on a small box --- *)
+Definition pair_mem (p : Z * Z) (l : list (Z * Z)) : bool :=
+  existsb (fun q => (fst p =? fst q) && (snd p =? snd q)) l.
+Lemma pair_mem_In p l : pair_mem p l = true <-> In p l.
+Proof.
+  unfold pair_mem. rewrite existsb_exists. destruct p as [a b]. split.
+  - intros [[a' b'] [Hin He]]. simpl in He. apply andb_true_iff in He. destruct He as [H1 H2].
+    apply Z.eqb_eq in H1, H2. subst. exact Hin.
+  - intros H. exists (a, b). split; [exact H|]. simpl. rewrite !Z.eqb_refl. reflexivity.
+Qed.
+
+Definition in_box (p : Z * Z) : bool := (Z.abs (fst p) <=? 2) && (Z.abs (snd p) <=? 2).
+Definition box_check (tbl : list (Z * Z)) (P : Z -> Z -> bool) : bool :=
+  forallb in_box tbl &&
+  forallb (fun a => forallb (fun b => Bool.eqb (pair_mem (a, b) tbl) (P a b)) (zrange (-2) 2)) (zrange (-2) 2).
+
+Lemma box_check_spec tbl P :
+  box_check tbl P = true ->
+  (forall a b, P a b = true -> Z.abs a <= 2 /\ Z.abs b <= 2) ->
+  forall a b, In (a, b) tbl <-> P a b = true.
+Proof.
+  unfold box_check. rewrite andb_true_iff. intros [Hbox Hall] HP a b.
+  rewrite forallb_forall in Hbox. rewrite forallb_forall in Hall.
+  destruct (Z_le_dec (Z.abs a) 2) as [Ha|Ha]; [destruct (Z_le_dec (Z.abs b) 2) as [Hb|Hb]|].
+  - assert (In a (zrange (-2) 2)) as Hia by (apply zrange_In; lia).
+    assert (In b (zrange (-2) 2)) as Hib by (apply zrange_In; lia).
+    specialize (Hall a Hia). rewrite forallb_forall in Hall. specialize (Hall b Hib).
+    apply Bool.eqb_prop in Hall. rewrite <- pair_mem_In, Hall. tauto.
+  - split.
+    + intros Hin. apply Hbox in Hin. unfold in_box in Hin. simpl in Hin.
+      apply andb_true_iff in Hin. destruct Hin as [_ Hin]. apply Z.leb_le in Hin. contradiction.
+    + intros Hp. apply HP in Hp. tauto.
+  - split.
+    + intros Hin. apply Hbox in Hin. unfold in_box in Hin. simpl in Hin.
+      apply andb_true_iff in Hin. destruct Hin as [Hin _]. apply Z.leb_le in Hin. contradiction.
+    + intros Hp. apply HP in Hp. tauto.
+Qed.
+
+Definition pairs_nodup (l : list (Z * Z)) : bool :=
+  (fix go (l : list (Z * Z)) : bool :=
+     match l with [] => true | p :: t => negb (pair_mem p t) && go t end) l.
+Lemma pairs_nodup_spec l : pairs_nodup l = true -> NoDup l.
+Proof.
+  induction l as [|p t IH]; simpl; intros H; [constructor|].
+  apply andb_true_iff in H. destruct H as [H1 H2]. constructor; [|auto].
+  rewrite <- pair_mem_In. destruct (pair_mem p t); [discriminate|congruence].
+Qed.
+
+Definition cheb2 (a b : Z) : bool := Z.max (Z.abs a) (Z.abs b) =? 1.
+Definition manh2 (a b : Z) : bool := Z.abs a + Z.abs b =? 1.
+
+Definition tables_2d_ok : bool :=
+  box_check gen_moore_offsets_2d cheb2 && box_check gen_vn_offsets_2d manh2 &&
+  pairs_nodup gen_moore_offsets_2d && pairs_nodup gen_vn_offsets_2d.
+
+Lemma tables_2d_of_check : tables_2d_ok = true ->
+  (forall a b, In (a, b) gen_moore_offsets_2d <-> Z.max (Z.abs a) (Z.abs b) = 1) /\
+  (forall a b, In (a, b) gen_vn_offsets_2d <-> Z.abs a + Z.abs b = 1) /\
+  NoDup gen_moore_offsets_2d /\ NoDup gen_vn_offsets_2d.
+Proof.
+  unfold tables_2d_ok. rewrite !andb_true_iff. intros [[[H1 H2] H3] H4].
+  split; [|split; [|split]].
+  - intros a b. rewrite (box_check_spec _ _ H1); [unfold cheb2; apply Z.eqb_eq|].
+    unfold cheb2. intros x y H. apply Z.eqb_eq in H. lia.
+  - intros a b. rewrite (box_check_spec _ _ H2); [unfold manh2; apply Z.eqb_eq|].
+    unfold manh2. intros x y H. apply Z.eqb_eq in H. lia.
+  - apply pairs_nodup_spec. exact H3.
+  - apply pairs_nodup_spec. exact H4.
+Qed.
+
+(* ================================================================== 2c. hex *)
+Lemma cube_dist_shift i j di dj :
+  cube_dist i j (i + di) (j + dj) = cube_dist 0 (j mod 2) di (j mod 2 + dj).
+Proof.
+  unfold cube_dist, cube_q, cube_r.
+  assert ((i + di - (j + dj + (j + dj) mod 2) / 2) - (i - (j + j mod 2) / 2)
+          = (di - (j mod 2 + dj + (j mod 2 + dj) mod 2) / 2) - (0 - (j mod 2 + (j mod 2) mod 2) / 2)) as E.
+  { Z.div_mod_to_equations. lia. }
+  rewrite E. replace (j + dj - j) with (j mod 2 + dj - j mod 2) by lia. reflexivity.
+Qed.
+
+Lemma cube_dist_box p a b : 0 <= p <= 1 ->
+  (cube_dist 0 p a (p + b) =? 1) = true -> Z.abs a <= 2 /\ Z.abs b <= 2.
+Proof.
+  intros Hp H. apply Z.eqb_eq in H. unfold cube_dist, cube_q, cube_r in H.
+  Z.div_mod_to_equations. lia.
+Qed.
+
+Lemma cube_dist_sym i j i' j' : cube_dist i j i' j' = cube_dist i' j' i j.
+Proof. unfold cube_dist. lia. Qed.
+
+Definition hex_touch (p a b : Z) : bool := cube_dist 0 p a (p + b) =? 1.
+(* both parity classes of the regenerated tables, checked on the box *)
+Definition hex_tables_ok : bool :=
+  box_check (hex_offsets [0; 0]) (hex_touch 0) && box_check (hex_offsets [0; 1]) (hex_touch 1).
+
+Lemma hex_offsets_parity i j : hex_offsets [i; j] = hex_offsets [0; j mod 2].
+Proof.
+  unfold hex_offsets.
+  change (nth (Z.to_nat gen_hex_parity_axis) [i; j] 0) with j.
+  change (nth (Z.to_nat gen_hex_parity_axis) [0; j mod 2] 0) with (j mod 2).
+  rewrite Z.mod_mod by lia. reflexivity.
+Qed.
+
+(* a hex cell (i, j), anywhere in Z^2, is connected under (di, dj) exactly to the cells whose
+   hexagons touch it (cube distance 1) *)
+Lemma hex_touching_of_tables : hex_tables_ok = true ->
+  forall i j di dj, In (di, dj) (hex_offsets [i; j]) <-> cube_dist i j (i + di) (j + dj) = 1.
+Proof.
+  unfold hex_tables_ok. rewrite andb_true_iff. intros [H0 H1] i j di dj.
+  rewrite hex_offsets_parity, cube_dist_shift.
+  assert (j mod 2 = 0 \/ j mod 2 = 1) as [E|E] by (pose proof (Z.mod_pos_bound j 2); lia); rewrite E.
+  - rewrite (box_check_spec _ _ H0); [unfold hex_touch; apply Z.eqb_eq|].
+    intros a b. apply cube_dist_box. lia.
+  - rewrite (box_check_spec _ _ H1); [unfold hex_touch; apply Z.eqb_eq|].
+    intros a b. apply cube_dist_box. lia.
+Qed.
+
+(* touching is symmetric, so the tables are closed under "go back" *)
+Lemma hex_offsets_back : hex_tables_ok = true ->
+  forall i j di dj, In (di, dj) (hex_offsets [i; j]) -> In (- di, - dj) (hex_offsets [i + di; j + dj]).
+Proof.
+  intros Hok i j di dj H. apply (hex_touching_of_tables Hok) in H.
+  apply (hex_touching_of_tables Hok). rewrite cube_dist_sym.
+  replace (i + di + - di) with i by lia. replace (j + dj + - dj) with j by lia. exact H.
+Qed.
+
+Lemma mod_even_parity x w : 0 < w -> w mod 2 = 0 -> (x mod w) mod 2 = x mod 2.
+Proof.
+  intros Hw He. rewrite (Z.mod_eq x w) by lia.
+  assert (exists q, w = 2 * q) as [q Ew] by (exists (w / 2); pose proof (Z.div_mod w 2); lia).
+  generalize (x / w). intros y.
+  replace (x - w * y) with (x + (- q * y) * 2) by (rewrite Ew; ring).
+  apply Z.mod_add. lia.
+Qed.
+
+(* hex connections are symmetric on a plain grid and on a torus whose parity axis has even size *)
+Lemma hex_symmetric : hex_tables_ok = true ->
+  forall torus h w i j di dj c',
+    0 < h -> 0 < w -> (torus = false \/ w mod 2 = 0) ->
+    in_bounds [h; w] [i; j] = true ->
+    In (di, dj) (hex_offsets [i; j]) ->
+    connect_2d torus [h; w] [i; j] (di, dj) = Some c' ->
+    In (- di, - dj) (hex_offsets c') /\ connect_2d torus [h; w] c' (- di, - dj) = Some [i; j].
+Proof.
+  intros Hok torus h w i j di dj c' Hh Hw Hev Hb Hin Hc.
+  rewrite connect_2d_eq_nd in Hc.
+  pose proof (connect_nd_symmetric torus [h; w] [i; j] [di; dj] c' eq_refl eq_refl Hb Hc) as Hback.
+  apply connect_nd_spec in Hc. destruct Hc as [Hc' _].
+  pose proof (hex_offsets_back Hok i j di dj Hin) as Hin'.
+  destruct torus.
+  - destruct Hev as [Hev|Hev]; [discriminate|].
+    unfold wrap, vadd in Hc'. simpl in Hc'. subst c'. split.
+    + rewrite hex_offsets_parity. rewrite hex_offsets_parity in Hin'.
+      rewrite mod_even_parity by assumption. exact Hin'.
+    + rewrite connect_2d_eq_nd. exact Hback.
+  - unfold vadd in Hc'. simpl in Hc'. subst c'. split; [exact Hin'|].
+    rewrite connect_2d_eq_nd. exact Hback.
+Qed.
+
+(* ================================================================== 3. network *)
+Lemma net_adj_In edges u v : In v (net_adj edges u) <-> In (u, v) edges \/ In (v, u) edges.
+Proof.
+  unfold net_adj. rewrite zdedup_In, in_flat_map. split.
+  - intros [[a b] [He Hv]]. simpl in Hv. destruct (a =? u) eqn:E1.
+    + apply Z.eqb_eq in E1. destruct Hv as [<-|[]]. subst. left. exact He.
+    + destruct (b =? u) eqn:E2; [|destruct Hv]. apply Z.eqb_eq in E2. destruct Hv as [<-|[]]. subst. right. exact He.
+  - intros [H|H].
+    + exists (u, v). split; [exact H|]. simpl. rewrite Z.eqb_refl. left. reflexivity.
+    + exists (v, u). split; [exact H|]. simpl. destruct (v =? u) eqn:E.
+      * apply Z.eqb_eq in E. left. symmetry. exact E.
+      * rewrite Z.eqb_refl. left. reflexivity.
+Qed.
+
+Lemma net_adj_sym edges u v : In v (net_adj edges u) -> In u (net_adj edges v).
+Proof. rewrite !net_adj_In. tauto. Qed.
+
+Lemma net_adj_NoDup edges u : NoDup (net_adj edges u).
+Proof. apply zdedup_NoDup. Qed.
+
+(* ================================================================== 4. Delaunay edges *)
+Lemma incircle_cyclic a b c p : incircle_det b c a p = incircle_det a b c p.
+Proof. unfold incircle_det. ring. Qed.
+Lemma orient_swap a b c : orient b a c = - orient a b c.
+Proof. unfold orient. ring. Qed.
+
+Lemma strictly_inside_swap a b c p : strictly_inside b a c p = strictly_inside a b c p.
+Proof.
+  unfold strictly_inside. rewrite (orient_swap a b c).
+  destruct (orient a b c >? 0) eqn:E1; destruct (orient a b c <? 0) eqn:E2;
+    destruct (- orient a b c >? 0) eqn:E3; destruct (- orient a b c <? 0) eqn:E4; try lia; try reflexivity.
+  - rewrite incircle_cyclic. reflexivity.
+  - rewrite (incircle_cyclic c b a p), (incircle_cyclic a c b p). reflexivity.
+Qed.
+
+Lemma forallb_ext' {A} (f g : A -> bool) l : (forall x, f x = g x) -> forallb f l = forallb g l.
+Proof. intros H. induction l; simpl; [reflexivity|]. rewrite H, IHl. reflexivity. Qed.
+Lemma existsb_ext' {A} (f g : A -> bool) l : (forall x, f x = g x) -> existsb f l = existsb g l.
+Proof. intros H. induction l; simpl; [reflexivity|]. rewrite H, IHl. reflexivity. Qed.
+
+Lemma empty_circle_swap pts a b c : empty_circle pts b a c = empty_circle pts a b c.
+Proof.
+  unfold empty_circle. rewrite orient_swap. f_equal.
+  - destruct (orient a b c =? 0) eqn:E1; destruct (- orient a b c =? 0) eqn:E2; try reflexivity; lia.
+  - apply forallb_ext'. intros p. rewrite strictly_inside_swap. reflexivity.
+Qed.
+
+Lemma empty_circle_spec pts a b c :
+  empty_circle pts a b c = true <->
+  orient a b c <> 0 /\ forall p, In p pts -> strictly_inside a b c p = false.
+Proof.
+  unfold empty_circle. rewrite andb_true_iff, forallb_forall, negb_true_iff, Z.eqb_neq.
+  split; intros [H1 H2]; (split; [exact H1|]); intros p Hp; specialize (H2 p Hp);
+    destruct (strictly_inside a b c p); simpl in *; congruence.
+Qed.
+
+Lemma delaunay_adj_sym pts i j : delaunay_adj pts i j = delaunay_adj pts j i.
+Proof.
+  unfold delaunay_adj. f_equal; [rewrite Z.eqb_sym; reflexivity|]. f_equal.
+  apply existsb_ext'. intros k. rewrite empty_circle_swap.
+  destruct (k =? i), (k =? j); reflexivity.
+Qed.
+
+Lemma delaunay_nbrs_In pts i j :
+  In j (delaunay_nbrs pts i) <-> In j (idxs pts) /\ delaunay_adj pts i j = true.
+Proof. unfold delaunay_nbrs. apply filter_In. Qed.
+
+(* i ~ j iff they differ and (there are only two centroids or) a third centroid k spans with them a
+   proper circle that has no centroid strictly inside *)
+Lemma delaunay_adj_spec pts i j :
+  delaunay_adj pts i j = true <->
+  i <> j /\ (Z.of_nat (length pts) = 2 \/
+             exists k, In k (idxs pts) /\ k <> i /\ k <> j /\
+               let a := znth pts i (0, 0) in let b := znth pts j (0, 0) in let c := znth pts k (0, 0) in
+               orient a b c <> 0 /\ forall p, In p pts -> strictly_inside a b c p = false).
+Proof.
+  unfold delaunay_adj. rewrite andb_true_iff, negb_true_iff, Z.eqb_neq, orb_true_iff, Z.eqb_eq, existsb_exists.
+  split; intros [H1 [H2|[k Hk]]]; (split; [exact H1|]); auto; right; exists k.
+  - destruct Hk as [Hk1 Hk2]. rewrite !andb_true_iff, !negb_true_iff, !Z.eqb_neq in Hk2.
+    destruct Hk2 as [[Hk2 Hk3] Hk4]. apply empty_circle_spec in Hk4. auto.
+  - destruct Hk as [Hk1 [Hk2 [Hk3 Hk4]]]. split; [exact Hk1|].
+    rewrite !andb_true_iff, !negb_true_iff, !Z.eqb_neq. split; [auto|]. apply empty_circle_spec. exact Hk4.
+Qed.
+
+(* odd parity axis on a torus: cell (0,0) of the 3x3 hex torus reaches (1,2) under (1,-1), but no
+   offset of (1,2) leads back *)
+Lemma hex_odd_torus_asymmetric :
+  exists c d c', In d (hex_offsets c) /\ connect_2d true [3; 3] c d = Some c' /\
+    forall d', In d' (hex_offsets c') -> connect_2d true [3; 3] c' d' <> Some c.
+Proof.
+  exists [0; 0], (1, -1), [1; 2]. vm_compute. split; [auto 10|]. split; [reflexivity|].
+  intros d' H. repeat (destruct H as [<-|H]; [discriminate|]). destruct H.
+Qed.
